@@ -272,7 +272,7 @@ namespace Dune
     /** \brief check whether the range is empty **/
     static constexpr std::integral_constant<bool, from == to> empty() noexcept { return {}; }
     /** \brief obtain number of elements in the range **/
-    static constexpr std::integral_constant<size_type, static_cast<size_type>(to) - static_cast<size_type>(from) > size() noexcept { return {}; }
+    static constexpr std::integral_constant<size_type, static_cast<size_type>(static_cast<size_type>(to) - static_cast<size_type>(from)) > size() noexcept { return {}; }
 
     /** \brief check whether given index is within range [from, to) **/
     static constexpr bool contains(value_type index) noexcept { return from <= index && index < to; }
